@@ -159,7 +159,7 @@ def compile_site(fd: ast.FunctionDef):
     import torch
     mod = ast.Module(body=[copy.deepcopy(fd)], type_ignores=[])
     ast.fix_missing_locations(mod)
-    env = {"torch": torch, "math": math, "abs": abs, "max": max, "min": min, "bool": bool, "int": int, "sum": sum}
+    env = {"torch": torch, "math": math, "dtype": torch.float64, "device": "cpu", "abs": abs, "max": max, "min": min, "bool": bool, "int": int, "sum": sum}
     exec(compile(mod, "<site>", "exec"), env)  # noqa: S102 - the code is /repo's own expression
     return env[fd.name]
 
